@@ -92,6 +92,8 @@ def _mutate_settings(rng, th, ob):
         # grid written to a file with limited precision): anything that recognises grids "up to
         # tolerance" across runners of one process computes on the wrong grid
         g = list(ob["interpolation_xgrid"])
+        if len(g) < 3:
+            return th, ob
         j = rng.randrange(1, len(g) - 1)
         g[j] = g[j] * (1.0 + rng.choice([1e-7, -1e-7, 3e-6]))
         ob["interpolation_xgrid"] = g
@@ -194,7 +196,7 @@ def gen_faults(rng, opkind, enabled, rate, est=None):
 
 
 def generate(run_seed, fault_config="all", jit=False, budget=4.0, max_pto=2, allow_n3lo=False,
-             max_ops=12, n3lo=False, big=False, meta=None):
+             max_ops=12, n3lo=False, big=False, huge=False, meta=None):
     st = Streams(run_seed)
     cfg, ops_rng, frng = st["config"], st["ops"], st["faults"]
     th, ob = cards.gen_settings(cfg, max_pto=1 if big else max_pto, allow_n3lo=allow_n3lo)
@@ -278,11 +280,25 @@ def generate(run_seed, fault_config="all", jit=False, budget=4.0, max_pto=2, all
             for _ in range(cfg.randint(1, 4)):
                 pts.insert(cfg.randrange(len(pts) + 1), copy.deepcopy(cfg.choice(pts)))
             base.append([name, pts])
+    if huge:
+        # more than 256 points in one observable, at leading order on a three-node grid
+        th["PTO"] = 0
+        th.pop("PTODIS", None)
+        th["TMC"] = 0
+        if th["FNS"] not in ("ZM-VFNS", "FFNS"):
+            th["FNS"] = "ZM-VFNS"
+        ob["interpolation_xgrid"] = list(cards.HUGE_GRID)
+        ob["interpolation_is_log"] = cfg.choice([True, False])
+        ob["interpolation_polynomial_degree"] = 1
+        hname = cfg.choice(["F2_light", "F2_total", "FL_light", "F3_total", "F2", "XSHERANC" if ob["prDIS"] != "CC" else "XSHERACC"])
+        base = [[hname, cards.huge_points(cfg, cfg.randint(257, 330), cards.is_xs(hname))]]
+        if cfg.random() < 0.5:
+            base.append(["FL_total", cards.huge_points(cfg, 3)])
     settings = {"S0": {"theory": th, "obs": ob}}
     runners = {"R0": ("S0", base)}
-    if cfg.random() < 0.65:
+    if cfg.random() < 0.65 and not huge:
         runners["R1"] = ("S0", _variant(cfg, base, th, ob, pools))
-    if cfg.random() < 0.22:
+    if cfg.random() < 0.22 and not huge:
         th1, ob1 = _mutate_settings(cfg, th, ob)
         settings["S1"] = {"theory": th1, "obs": ob1}
         pools1 = pools
@@ -321,7 +337,7 @@ def generate(run_seed, fault_config="all", jit=False, budget=4.0, max_pto=2, all
     runs_done = {}  # runner -> number of full computations so far
     pending = list(runners.keys())
     cost = 0.0
-    hist_budget = budget * (6.0 if big else 1.0)
+    hist_budget = budget * (6.0 if big else 1.0) * (40.0 if huge else 1.0)
     refc = sum(_ref_cost(settings[s]["theory"], settings[s]["obs"], l, jit) for s, l in runners.values())
     steps = 0
     while len(ops) < max_ops and steps < 60:
